@@ -307,6 +307,15 @@ func (h *SimH) do(q *Req, c flamego.Context, rw http.ResponseWriter, r *http.Req
 		if c != nil {
 			c.SetCookie(http.Cookie{Name: "ck" + itoa(h.Pos), Value: q.Name})
 		}
+	case OpSeeHeaders:
+		if rw != nil {
+			keys := make([]string, 0, 4)
+			for k := range rw.Header() {
+				keys = append(keys, k)
+			}
+			sort.Strings(keys)
+			q.Note("headers=" + strings.Join(keys, ","))
+		}
 	case OpSeeSvc:
 		if c != nil {
 			if v := c.Value(svcType); v.IsValid() {
